@@ -40,6 +40,15 @@ OBLIGATIONS += [
     mains(3, "gensquashfs_pack_file_fail_stop", ["bin/gensquashfs/src/mkfs.c"], {"destroy": ["dtor_fin", "dtor_fout"], "flush": ["flush_stub"]}, ["success", "failure"],
           "1..2 files, each of open / size / stream / block stream / up to 3 splices / flush may fail; input path given or reconstructed"),
 ]
+def ser(kind, tiers):
+    nm = {1: "dir", 2: "file", 3: "symlink", 4: "device", 5: "ipc"}[kind]
+    return dict(name="serialize_node_%s" % nm, harness="harness/C13_serialize.c", sources=["lib/sqfs/src/inode.c", "lib/util/src/alloc.c"],
+        included_sources=["lib/common/src/writer/serialize_fstree.c"], pre_include=["stubs/vp_alloc_sizes.h"], defines=dict(dict(KIND=kind, VP_ALLOC_SIZES="64,66"), **({"PERM": "04751"} if kind <= 3 else {})), unwind=10, leak=True, tiers=tiers, timeout=300,
+        fp_map={"get_size": ["get_size_stub"]}, reach=["success", "failure"],
+        functions=["sqfs_serialize_fstree, serialize_tree_node, write_dir_entries, tree_node_to_inode (lib/common/src/writer/serialize_fstree.c)",
+                   "sqfs_inode_set_xattr_index, sqfs_inode_make_basic, sqfs_inode_make_extended (lib/sqfs/src/inode.c)"],
+        bound="one tree node (%s) with %s, symbolic ids, times, link count, xattr index; every step of the serialiser may fail" % (nm, "permission bits 04751" if kind <= 3 else "all 4096 permission bit values"))
+OBLIGATIONS += [ser(k, ["quick", "thorough"]) for k in (1, 2, 3, 4, 5)]
 FPIO = {'read_at': ['vp_file_read_at'], 'write_at': ['vp_file_write_at'], 'truncate': ['vp_file_truncate'], 'get_size': ['vp_file_get_size'], 'do_block': ['cw_do_block', 'vp_cmp_do_block']}
 OBLIGATIONS.append(dict(name="blockwriter_io_failure_h1_nb1", harness="harness/C08_blockwriter.c", sources=["lib/util/src/file_cmp.c", "lib/util/src/array.c"],
     included_sources=["lib/sqfs/src/block_writer.c"], defines=dict(H=1, NB=1, SZ=2, MODE=3), unwind=10, tiers=["quick", "thorough"], timeout=300, fp_map=FPIO,
